@@ -134,14 +134,15 @@ def kfac_state(pre):
 
 
 def case(part, item):
-    kinds, dname, (method, prediv), idt, fdt, modes, seed = item
+    kinds, dname, (method, prediv), idt, fdt, modes, seed = item[:7]
+    kl = item[7] if len(item) > 7 else 1e-3
     import kfac
 
     dtype = R.DT[dname]
     name = (f"{'+'.join(kinds)}/{dname}/{method}/{prediv}/idt={idt}/fdt="
-            f"{fdt}/modes={modes}")
+            f"{fdt}/modes={modes}/kl={kl}")
     det = {'item': [list(kinds), dname, [method, prediv], idt, fdt, modes,
-                    seed]}
+                    seed, kl]}
 
     def bad(kind, text):
         part.violation(f'{kind}:{dname}', f'{name}: {text}', det)
@@ -149,7 +150,7 @@ def case(part, item):
     try:
         model, shapes = build(kinds, dtype, seed)
         twin = copy.deepcopy(model)
-        kw = dict(damping=0.05, factor_decay=0.5, kl_clip=1e-3, lr=0.1,
+        kw = dict(damping=0.05, factor_decay=0.5, kl_clip=kl, lr=0.1,
                   compute_method=method,
                   compute_eigenvalue_outer_product=prediv,
                   inv_dtype=R.DT[idt], skip_layers=['skipme'])
@@ -266,8 +267,11 @@ def main(run: core.Run):
             else:
                 hs = [mode_hists[(i + run.seed) % 8],
                       mode_hists[(3 * i + 1 + run.seed) % 8]]
-            for h in hs:
-                items.append((kinds, dname, (m, p), idt, fdt, h, run.seed))
+            kls = [1e-3, 1e30, None]
+            for j, h in enumerate(hs):
+                for kl in (kls if thorough else [kls[(i + j) % 3]]):
+                    items.append((kinds, dname, (m, p), idt, fdt, h,
+                                  run.seed, kl))
     core.pmap(run, case, items)
     run.c['states'] = run.c.get('evaluations', 0)
     run.c['transitions'] = run.c.get('evaluations', 0)
@@ -279,6 +283,7 @@ def main(run: core.Run):
         'unsupported custom module, frozen and half-frozen Linear, a Linear '
         'excluded by a skip pattern, a Sequential chain) as parallel '
         'branches x parameter dtype x method x inverse/factor dtype x '
+        'clipping {active, inactive, None} x '
         'train/eval mode histories of length 3; bit-exact snapshots of '
         'state_dict and all .grad tensors around step(), digest of all '
         'K-FAC state around eval passes, outputs/gradients vs a deep-copied '
@@ -298,5 +303,5 @@ def replay(run, data):
     it = data['detail']['item']
     part = core.Part()
     case(part, (tuple(it[0]), it[1], tuple(it[2]), it[3], it[4], it[5],
-                it[6]))
+                it[6]) + tuple(it[7:]))
     run.merge(part.dump())
